@@ -78,7 +78,7 @@ def run_driver_sharded(c, name, casefile, what, extra_args=(), shards=12, end_ma
         with open(p, "w") as f:
             for cs in cases[i::shards]:
                 f.write("\n".join(cs) + "\n")
-        procs.append((p, subprocess.Popen("ulimit -s unlimited 2>/dev/null; exec %s %s %s" % (
+        procs.append((p, subprocess.Popen("ulimit -s 262144 2>/dev/null; ulimit -v 4000000 2>/dev/null; exec %s %s %s" % (
             os.path.join(verif.VERIF, "ocaml", "bin", name), p, " ".join(extra_args)),
             shell=True, stdout=subprocess.PIPE, stderr=subprocess.STDOUT, text=True)))
     mism, viol, known, summ = [], [], [], collections.Counter()
